@@ -139,7 +139,7 @@ theorem C19_forward_not_deleted
     (hout : (∃ d, Effect.tx d ∈ (doFwd cfg st now sp).2) ∨ Effect.fragmented ∈ (doFwd cfg st now sp).2) :
     ∀ i rep r, Effect.report i rep r ∈ (doFwd cfg st now sp).2 → rep.deleted = .no := by
   have key : ∀ (e : St × Ctr × Bool) (s : St × Ctr × SendRes),
-      e = fwdEdit cfg { st with fwdQ := q } now c0 → s = sendBundle cfg e.1 now sp e.2.1 →
+      e = fwdEdit cfg { st with fwdQ := q } now c0 → s = sendAsIs cfg e.1 now sp e.2.1 →
       (doFwd cfg st now sp).2 =
         if !e.2.2 then (fwdFail e.1 e.2.1 now []).2
         else match s.2.2 with
@@ -162,7 +162,7 @@ theorem C19_forward_not_deleted
     exact ⟨fun d => by simp, by simp⟩
   -- a report scheduled after a successful hand-over
   have hgood : ∀ (i : Ident) (rep : StatusReport) (r : Ctr),
-      Effect.report i rep r ∈ finishEff ((sendBundle cfg (fwdEdit cfg { st with fwdQ := q } now c0).1 now sp
+      Effect.report i rep r ∈ finishEff ((sendAsIs cfg (fwdEdit cfg { st with fwdQ := q } now c0).1 now sp
           (fwdEdit cfg { st with fwdQ := q } now c0).2.1).2.1.record .forward now) → rep.deleted = .no := by
     intro i rep r hm
     obtain ⟨rep', hrep, he⟩ := finishEff_mem _ _ hm
@@ -172,8 +172,7 @@ theorem C19_forward_not_deleted
     apply statusFor_delete_no
     simp only [Ctr.record]
     rw [hasAct_record_ne _ _ _ _ (by decide)]
-    simp only [sendBundle]
-    rw [(applyPrimary_actions _ _ _ _).1, (fwdEdit_meta _ _ _ _).1]
+    rw [sendAsIs_ctr, (fwdEdit_meta _ _ _ _).1]
     exact hnd
   rw [key _ _ rfl rfl] at hout ⊢
   split at hout
@@ -183,7 +182,7 @@ theorem C19_forward_not_deleted
     · exact (hfail _ _ _ hd).2 rfl
   · rename_i hok
     simp only [hok]
-    cases hres : (sendBundle cfg (fwdEdit cfg { st with fwdQ := q } now c0).1 now sp
+    cases hres : (sendAsIs cfg (fwdEdit cfg { st with fwdQ := q } now c0).1 now sp
         (fwdEdit cfg { st with fwdQ := q } now c0).2.1).2.2 with
     | sent b =>
       intro i rep r hm
@@ -230,18 +229,18 @@ theorem C19_failed_forward_not_reported_forwarded
     (∀ d, Effect.tx d ∉ (doFwd cfg st now sp).2) ∧ Effect.fragmented ∉ (doFwd cfg st now sp).2
     ∧ ∀ i rep r, Effect.report i rep r ∈ (doFwd cfg st now sp).2 →
         rep.forwarded = .no ∧ rep.reason = reasonNoRoute := by
-  have hres : (sendBundle cfg (fwdEdit cfg { st with fwdQ := q } now c0).1 now sp
+  have hres : (sendAsIs cfg (fwdEdit cfg { st with fwdQ := q } now c0).1 now sp
       (fwdEdit cfg { st with fwdQ := q } now c0).2.1).2.2 = .noSender := by
-    simp only [sendBundle, sendRes]
+    simp only [sendAsIs, sendRes]
     rcases hfail with h | h | ⟨h1, h2⟩
     · simp [h]
     · cases hb : sp.txBits.any id <;> simp [h]
     · cases hb : sp.txBits.any id <;> cases hf : sp.frag <;> simp_all
   have hok := (fwdEdit_stages cfg { st with fwdQ := q } now c0).1
   have heq : (doFwd cfg st now sp).2 = (fwdFail
-      (sendBundle cfg (fwdEdit cfg { st with fwdQ := q } now c0).1 now sp
+      (sendAsIs cfg (fwdEdit cfg { st with fwdQ := q } now c0).1 now sp
         (fwdEdit cfg { st with fwdQ := q } now c0).2.1).1
-      (sendBundle cfg (fwdEdit cfg { st with fwdQ := q } now c0).1 now sp
+      (sendAsIs cfg (fwdEdit cfg { st with fwdQ := q } now c0).1 now sp
         (fwdEdit cfg { st with fwdQ := q } now c0).2.1).2.1 now []).2 := by
     unfold doFwd
     simp only [hq, hok, Bool.not_true, Bool.false_eq_true, if_false, hres]
@@ -288,6 +287,27 @@ theorem C19_queue_no_delete (cfg : Cfg) (st : St) (now : Nat) (rx : RxBundle) (c
         · exact Or.inr hd
     · simp only [hd, if_true, finish_fwdQ] at h
       exact Or.inl h
+
+
+/-- **After forwarding, the subject is the received identity** (creation time 0 included) and
+    **an absent report-to yields no report**. -/
+theorem C19_forward_report_subject (cfg : Cfg) (st : St) (now : Nat) (sp : SendParams) (c0 : Ctr)
+    (q : List Ctr) (hq : st.fwdQ = c0 :: q) :
+    (∀ i rep r, Effect.report i rep r ∈ (doFwd cfg st now sp).2 →
+        rep.subjSrc = c0.primary.src ∧ rep.subjTs = c0.primary.ts ∧ r.primary.dest = c0.primary.rpt)
+    ∧ (c0.rptNone = true → ∀ i rep r, Effect.report i rep r ∉ (doFwd cfg st now sp).2) := by
+  constructor
+  · intro i rep r hm
+    obtain ⟨c', hc, hp, _⟩ := doFwd_report_source cfg st now sp c0 q hq _ hm rfl
+    obtain ⟨rep', hrep, he⟩ := finishEff_mem _ _ hc
+    simp only [Effect.report.injEq] at he
+    obtain ⟨_, rfl, rfl⟩ := he
+    rw [reportFor_some _ _ hrep]
+    simp [reportOf, replyCtr, hp]
+  · intro hn i rep r hm
+    obtain ⟨c', hc, _, hrn⟩ := doFwd_report_source cfg st now sp c0 q hq _ hm rfl
+    obtain ⟨rep', hrep, _⟩ := finishEff_mem _ _ hc
+    simp [reportFor, rptDisabled, hrn, hn] at hrep
 
 end C19
 end Props
